@@ -1,4 +1,8 @@
 import RCE.Proofs.SearchMate
+import RCE.Proofs.SearchMateOne
+import RCE.Proofs.SearchMateOneChess
+import RCE.Proofs.SearchMateAvoid
+import RCE.Proofs.SearchMateTwo
 /-! # C12 — with caching on, mate scores are sound
 
 `Won G p` / `Lost G p`: the side to move in `p` has a forced mate / is forcibly mated (inductive, any
@@ -21,10 +25,45 @@ What is proved (`_partial`): both clauses hold when (a) no legal root move mates
 initial cache holds no score `≤ −32767` or `≥ 32767` (`StrictScores`; true of the empty cache, and preserved by the
 search under (a)).  The two counterexamples show that neither (a) nor (b) can be dropped.
 
-The completeness clauses of the property (a mate in ≤ 2 *is found* after a completed 3-ply iteration, also with a
-pre-loaded cache) are not theorems — stored mate distances are relative to the root that stored them, so that
-statement is path-dependent; it is decided by the differential check against a mate solver over the rules spec, see
-DESIGN.md. -/
+**Completeness, first clause — proved**: `mate_in_one_played`: if some legal root move mates at once, then after any
+completed iteration (any depth ≥ 1, any limits / stop point / monotone clock, cache on) the chosen move is a mating move,
+from the empty cache and from every cache left by earlier completed searches of the same position
+(`mate_in_one_played_again`; invariant `MateOneInv`: nothing is stored for a mated child, and the cache is clean or the
+root's entry is an exact one naming a mating move).  Hypotheses beyond those of the soundness theorems, each shown
+necessary by a kernel-checked counter-example in `Proofs/SearchMateOne.lean`: `MatedKeysFresh` (no writing node below
+the root carries a mated child's key — `KeyMate` alone is not enough), `NoDrawAtMate` (the mated children are not declared
+draws by the fifty-move / repetition tests that run before the mate test: "given without prior history and with a small
+half-move clock"), `OrderScoresOK` (static ordering scores stay below the score reserved for the cached move: proved
+for chess, `chess_orderScoresOK`), and the cache being on in the earlier searches too.  `mate_in_one_nonvacuous`: all
+hypotheses hold of a concrete game whose mating move is not generated first.
+
+**Completeness, third clause — proved in part, refuted as stated**: `avoidable_mate_avoided_partial`: if no root move mates at
+once and some legal move does not allow a mate in one, then after any completed iteration of depth ≥ 2 the chosen move
+does not allow one; the invariant `AvoidInv` holds of the empty cache and is re-established by every search (completed or
+interrupted), so the statement covers earlier searches of the same position (`avoidable_mate_avoided_again`).  It needs,
+beyond `KeyMate`: `PlyKeys` (the key of a root child in which the opponent mates at once is carried only by ply-1 nodes:
+mate scores are ply-relative and stored unadjusted, so an entry written for such a position at another ply misstates
+the distance — `Counter.G5`: stored at ply 1, read at ply 3; `Counter.G6`: stored at ply 5, read at ply 1, the blunder
+then scores −32762 and beats a safe move worth −32764), `MatedKeysFresh2`, `NoDrawAtMate2`; each is shown necessary by a
+counter-example, and `avoid_clean_refuted` refutes the statement without `PlyKeys` for the search as written.  In chess
+a ply-1 / ply-3 transposition is impossible; a ply-1 / ply-5 one (the opponent moving out and back) is possible: see
+DESIGN.md, finding D10.
+
+**Completeness, second clause — proved in part, refuted as stated**: `mate_in_two_kept_partial`: if a mate in two exists
+whose key move does not give check, then after a completed 3-ply iteration the chosen move keeps a forced mate (the
+reported score is a mate score and the opponent is `Lost` after it); with ANY key move the same holds after a completed
+4-ply iteration (`mate_in_two_kept_four`); the invariant `MateTwoInv` holds of the empty cache and is re-established by
+every search, so the statements cover earlier searches of the same position (`mate_in_two_kept_again`).  Hypotheses
+beyond `KeyMate` / `NoMateInOne`: `LineKeys` (tree nodes sharing a key with a node of the mating line are of the same
+kind or never write: this is where graph-history interaction is excluded) and `NoDrawBelow3` (no fifty-move / repetition
+draw within three plies of the root).  `mate_in_two_statement_refuted`: for a CHECKING key move the 3-ply statement is
+false for the search as written even from the empty cache, with an injective key and no draws (`Counter.GC`): the cache
+stores the depth after the check extension but compares it with the requested depth before it, and a lower bound read from
+the cache leaks into a later stored exact score; the run needs a transposition into the position after the key move at
+ply 3, which cannot occur in chess (ply 5 can): see DESIGN.md, finding D11.
+
+All three clauses are also decided on mined chess positions by the differential check against a mate solver over the
+rules spec, see DESIGN.md. -/
 namespace RCE.Props.C12
 open RCE.Search RCE.Proofs.SearchDefs RCE.Proofs.SearchMate
 
@@ -53,6 +92,102 @@ theorem mate_score_sound_partial (env : Env) (G : Game P M) (p : P) (maxDepth : 
     Lost G (G.play p m) :=
   RCE.Proofs.SearchMate.mate_score_sound_partial env G p maxDepth tt0 hk he hs hno hst s m hb hw hm
 
+open RCE.Proofs.SearchMateOne in
+/-- a mate in one is played: after any completed iteration the chosen move mates at once, and the cache invariant that
+    makes this repeatable is re-established -/
+theorem mate_in_one_played (env : Env) (G : Game P M) (p : P) (maxDepth : Option Nat) (tt0 : Table M)
+    (hc : MonoClock env) (hoff : env.cacheOff = false) (he : EvalBoundedFrom G p) (hk : KeyMate G)
+    (hK : MatedKeysFresh G p) (hD : NoDrawAtMate G p) (hO : OrderScoresOK G p)
+    (hex : ∃ m, Mates G p m) (hinv : MateOneInv G p tt0) (hdone : (search env G p maxDepth tt0).infos ≠ []) :
+    (∃ m, (search env G p maxDepth tt0).st.bestMove = some m ∧ Mates G p m) ∧
+    MateOneInv G p (search env G p maxDepth tt0).st.tt :=
+  RCE.Proofs.SearchMateOne.mate_in_one_played env G p maxDepth tt0 hc hoff he hk hK hD hO hex hinv hdone
+
+open RCE.Proofs.SearchMateOne in
+/-- … and it is the move printed after `bestmove` -/
+theorem mate_in_one_answered (env : Env) (G : Game P M) (p : P) (maxDepth : Option Nat) (tt0 : Table M)
+    (hc : MonoClock env) (hoff : env.cacheOff = false) (he : EvalBoundedFrom G p) (hk : KeyMate G)
+    (hK : MatedKeysFresh G p) (hD : NoDrawAtMate G p) (hO : OrderScoresOK G p)
+    (hex : ∃ m, Mates G p m) (hinv : MateOneInv G p tt0) (hdone : (search env G p maxDepth tt0).infos ≠ []) :
+    ∃ m, (search env G p maxDepth tt0).best = some m ∧ Mates G p m :=
+  RCE.Proofs.SearchMateOne.mate_in_one_answered env G p maxDepth tt0 hc hoff he hk hK hD hO hex hinv hdone
+
+open RCE.Proofs.SearchMateOne in
+/-- the empty cache satisfies the invariant -/
+theorem mateOneInv_empty (G : Game P M) (p : P) : MateOneInv G p ({} : Table M) :=
+  RCE.Proofs.SearchMateOne.mateOneInv_empty G p
+
+/-- the ordering-score hypothesis holds for chess, whatever the position -/
+theorem chess_orderScoresOK (b : RCE.Board) : RCE.Proofs.SearchMateOne.OrderScoresOK RCE.chessGame b :=
+  RCE.Proofs.SearchMateOneChess.chess_orderScoresOK b
+
+/-- non-vacuity: every hypothesis of `mate_in_one_played` holds of a concrete game (mating move generated second) -/
+theorem mate_in_one_nonvacuous :
+    ∃ m, (search {} RCE.Proofs.SearchMateOneChess.G5 0 (some 2) {}).st.bestMove = some m ∧
+      RCE.Proofs.SearchMateOne.Mates RCE.Proofs.SearchMateOneChess.G5 0 m :=
+  RCE.Proofs.SearchMateOneChess.mate_in_one_nonvacuous
+
+open RCE.Proofs.SearchMateOne RCE.Proofs.SearchMateAvoid in
+/-- an avoidable mate in one is avoided — under `PlyKeys`, `MatedKeysFresh2`, `NoDrawAtMate2` (see the header) -/
+theorem avoidable_mate_avoided_partial (env : Env) (G : Game P M) (p : P) (maxDepth : Option Nat) (tt0 : Table M)
+    (hc : MonoClock env) (hoff : env.cacheOff = false) (he : EvalBoundedFrom G p) (hk : KeyMate G)
+    (hP : PlyKeys G p) (hK : MatedKeysFresh2 G p) (hD : NoDrawAtMate2 G p)
+    (hno : NoMateInOne G p) (hsafe : ∃ s, Safe G p s) (hinv : AvoidInv G p tt0)
+    (hdone : ∃ i ∈ (search env G p maxDepth tt0).infos, i.depth ≥ 2) :
+    (∃ m, (search env G p maxDepth tt0).st.bestMove = some m ∧ Safe G p m) ∧
+    AvoidInv G p (search env G p maxDepth tt0).st.tt :=
+  RCE.Proofs.SearchMateAvoid.avoidable_mate_avoided env G p maxDepth tt0 hc hoff he hk hP hK hD hno hsafe hinv hdone
+
+open RCE.Proofs.SearchMateOne RCE.Proofs.SearchMateAvoid in
+/-- … also after any number of earlier searches of the position (completed or interrupted, cache on) -/
+theorem avoidable_mate_avoided_again (G : Game P M) (p : P) (he : EvalBoundedFrom G p) (hk : KeyMate G)
+    (hP : PlyKeys G p) (hK : MatedKeysFresh2 G p) (hD : NoDrawAtMate2 G p) (hno : NoMateInOne G p)
+    (hsafe : ∃ s, Safe G p s) :
+    ∀ (gs : List Go) (tt0 : Table M), AvoidInv G p tt0 → (∀ g ∈ gs, MonoClock g.env ∧ g.env.cacheOff = false) →
+      AvoidInv G p (cacheAfter G p gs tt0) ∧
+      ∀ (env : Env) (maxDepth : Option Nat), MonoClock env → env.cacheOff = false →
+        (∃ i ∈ (search env G p maxDepth (cacheAfter G p gs tt0)).infos, i.depth ≥ 2) →
+        ∃ m, (search env G p maxDepth (cacheAfter G p gs tt0)).st.bestMove = some m ∧ Safe G p m :=
+  RCE.Proofs.SearchMateAvoid.avoidable_mate_avoided_again G p he hk hP hK hD hno hsafe
+
+/-- the third clause as stated (no hypothesis about keys at different plies) is FALSE for the search as written:
+    reduced to the displayed run of `Counter.G5` in `Proofs/SearchMateAvoid.lean` -/
+theorem avoidable_mate_statement_refuted
+    (hrun : (∃ i ∈ RCE.Proofs.SearchMateAvoid.Counter.r5.infos, i.depth ≥ 2) ∧
+            RCE.Proofs.SearchMateAvoid.Counter.r5.st.bestMove = some 1) :
+    ¬ RCE.Proofs.SearchMateAvoid.avoidable_mate_avoided_clean_statement :=
+  RCE.Proofs.SearchMateAvoid.Counter.avoid_clean_refuted hrun
+
+open RCE.Proofs.SearchMateOne RCE.Proofs.SearchMateTwo in
+/-- a mate in two with a quiet key move is kept after a completed 3-ply iteration -/
+theorem mate_in_two_kept_partial (env : Env) (G : Game P M) (p : P) (maxDepth : Option Nat) (tt0 : Table M)
+    (hc : MonoClock env) (he : EvalBoundedFrom G p) (hk : KeyMate G)
+    (hno : NoMateInOne G p) (hL : LineKeys G p) (hd : NoDrawBelow3 G p)
+    (hex : ∃ m, MateInTwoBy G p m ∧ G.inCheck (G.play p m) = false) (hinv : MateTwoInv G p tt0)
+    (hdone : ∃ i ∈ (search env G p maxDepth tt0).infos, i.depth ≥ 3) :
+    (∃ m, (search env G p maxDepth tt0).st.bestMove = some m ∧ Lost G (G.play p m)) ∧
+    MateTwoInv G p (search env G p maxDepth tt0).st.tt :=
+  RCE.Proofs.SearchMateTwo.mate_in_two_kept' env G p maxDepth tt0 hc he hk hno hL hd hex hinv hdone
+
+open RCE.Proofs.SearchMateOne RCE.Proofs.SearchMateTwo in
+/-- a mate in two with any key move is kept after a completed 4-ply iteration -/
+theorem mate_in_two_kept_four (env : Env) (G : Game P M) (p : P) (maxDepth : Option Nat) (tt0 : Table M)
+    (hc : MonoClock env) (he : EvalBoundedFrom G p) (hk : KeyMate G)
+    (hno : NoMateInOne G p) (hL : LineKeys G p) (hd : NoDrawBelow3 G p)
+    (hex : ∃ m, MateInTwoBy G p m) (hinv : MateTwoInv G p tt0)
+    (hdone : ∃ i ∈ (search env G p maxDepth tt0).infos, i.depth ≥ 4) :
+    (∃ m, (search env G p maxDepth tt0).st.bestMove = some m ∧ Lost G (G.play p m)) ∧
+    MateTwoInv G p (search env G p maxDepth tt0).st.tt :=
+  RCE.Proofs.SearchMateTwo.mate_in_two_kept_four env G p maxDepth tt0 hc he hk hno hL hd hex hinv hdone
+
+/-- the second clause as stated (3 plies, any key move) is FALSE for the search as written, even from the empty cache with an
+    injective key and no draws: reduced to the displayed run of `Counter.GC` in `Proofs/SearchMateTwo.lean` -/
+theorem mate_in_two_statement_refuted
+    (hrun : (∃ i ∈ RCE.Proofs.SearchMateTwo.Counter.rC.infos, i.depth ≥ 3) ∧
+            RCE.Proofs.SearchMateTwo.Counter.rC.st.bestMove = some 1) :
+    ¬ RCE.Proofs.SearchMateTwo.Counter.mate_in_two_kept_statement :=
+  RCE.Proofs.SearchMateTwo.Counter.mate_in_two_kept_refuted hrun
+
 /-- the full statements are refuted by the two runs displayed in `RCE/Proofs/SearchMate.lean` -/
 theorem statements_refuted
     (hrun1 : ∃ e, Counter.r1.st.tt[Counter.G1.key 3]? = some e ∧ e.bound = .lower ∧ e.score = 32767)
@@ -65,3 +200,14 @@ end RCE.Props.C12
 #print axioms RCE.Props.C12.tt_mate_sound_partial
 #print axioms RCE.Props.C12.mate_score_sound_partial
 #print axioms RCE.Props.C12.statements_refuted
+#print axioms RCE.Props.C12.mate_in_one_played
+#print axioms RCE.Props.C12.mate_in_one_answered
+#print axioms RCE.Props.C12.mateOneInv_empty
+#print axioms RCE.Props.C12.chess_orderScoresOK
+#print axioms RCE.Props.C12.mate_in_one_nonvacuous
+#print axioms RCE.Props.C12.avoidable_mate_avoided_partial
+#print axioms RCE.Props.C12.avoidable_mate_avoided_again
+#print axioms RCE.Props.C12.avoidable_mate_statement_refuted
+#print axioms RCE.Props.C12.mate_in_two_kept_partial
+#print axioms RCE.Props.C12.mate_in_two_kept_four
+#print axioms RCE.Props.C12.mate_in_two_statement_refuted
